@@ -114,7 +114,7 @@ class Prop:
             'all enum codes and all 256 rate-of-turn values, text with @, blanks and lower part of the alphabet); '
             'decode -> to_bitarray -> decode must be the identity on the decoded message, and bit-exact when no field '
             'was normalised; compared with the Lean model (reencode); non-trivial = at least one field normalised or '
-            'absent')
+            'absent ; the re-encoded sentences also decoded in reverse order and read back through one long-lived NMEAQueue (order alternating)')
     assumptions = ['float fields are compared as exact decimals; IEEE rounding in the converters is modelled in exact arithmetic']
 
     def cases(self, ctx):
